@@ -1,6 +1,11 @@
 import PdfModel.Core.Proto
 import PdfModel.Model.Xref
 import PdfModel.Model.XrefStream
+import PdfModel.Model.XrefTable
+import PdfModel.Model.Offsets
+import PdfModel.Model.XrefFile
+import PdfModel.Spec.XrefTable
+import PdfModel.Drv.Obj
 
 /-! Line-protocol handler for the C02 streams.
 
@@ -13,6 +18,21 @@ import PdfModel.Model.XrefStream
                                    one cross-reference stream read by `parseSections` and merged into
                                    `newTable size`
   → `ok <entries>` | `err` | `panic`
+
+  c02.table <hex>                  `read_xref_and_trailer_at` with the lexer at position 0 of the buffer
+                                   (`XrefTable.readXrefAndTrailerAt`; the cross-reference *stream* branch
+                                   is not modelled here and answers `stream`)
+  → `ok <section> <trailer value>` | `err` | `panic` | `oof` | `stream`
+  c02.tableat <hex> <pos>          `parse_xref_table_and_trailer` with the lexer at `pos` (behind the keyword
+                                   `xref`): `XrefTable.parseXrefTableAndTrailer`; the final lexer position
+  → `ok <section> <trailer value> <pos>` | `err` | `panic` | `oof`
+  c02.tablewrite <section> <trailer D[..]> <tape> <tail hex>
+                                   the conforming writer of `Spec/XrefTable` (`writeSection`)
+  → `<hex>`
+  c02.walk <hex> <start>           `Backend::read_xref_table_and_trailer(start, ..)` = `XrefTable.readXrefTableAndTrailer`
+                                   (Model/XrefFile: `Offsets.loadTable` with the classic table reader as section parser)
+  → `ok <entries> <trailer value>` | `err` | `panic` | `oof`
+  (`<section>` as in c02.merge: subsections joined by `;`, `-` for none; values in the C03 notation, Drv/Obj)
 -/
 
 namespace DrvC02
@@ -56,8 +76,69 @@ def parseSection (s : String) : Option (List Sub) :=
 def readSections (s : String) : Option (List (List Sub)) :=
   if s == "-" then some [] else mapM? parseSection (s.splitOn "|")
 
+def showSub (s : Sub) : String :=
+  s!"{s.first}:{if s.entries.isEmpty then "-" else joinWith "," (s.entries.map showEntry)}"
+
+def showSection (subs : List Sub) : String :=
+  if subs.isEmpty then "-" else joinWith ";" (subs.map showSub)
+
+abbrev TrailerDict := PdfLex.Dict (List UInt8)
+
+def tableEnv : PdfLex.Env (List UInt8) := DrvObj.mkEnv false 0 []
+
+def readAt (buf : PdfLex.Buf) : Out (List Sub × TrailerDict) :=
+  XrefTable.readXrefAndTrailerAt tableEnv (fun _ _ => .err) buf (XrefTable.defaultFuel buf) (PdfLex.defaultFuel buf) 0
+
+/-- the object-level parsers of `Offsets.Parsers`: never called by the walk -/
+def noObjects : Offsets.Parsers Unit TrailerDict where
+  xrefAt := fun _ => .err
+  sizeOf := fun _ => .err
+  prevOf := fun _ => none
+  objAt := fun _ _ => .err
+  streamEnd := fun _ => .err
+  asLen := fun _ => .err
+  stmHead := fun _ => .err
+  decode := fun _ _ => .err
+  parseMember := fun _ _ => .err
+  scanItems := fun _ => []
+
+/-- does the first lexeme read `xref`? (otherwise the Rust code takes the stream branch) -/
+def startsWithXref (buf : PdfLex.Buf) : Bool :=
+  match PdfLex.next buf 0 with
+  | .ok w => PdfLex.slice buf w.1 w.2 == XrefTable.kwXref
+  | _ => true
+
 def handle (args : List String) : String :=
   match args with
+  | ["c02.table", hex] =>
+    match bytesOfHex hex with
+    | some bs =>
+      let buf := bs.toArray
+      if !startsWithXref buf then "stream" else
+      match readAt buf with
+      | .ok (subs, d) => s!"ok {showSection subs} {DrvObj.showVal (.dict d)}"
+      | o => o.tag
+    | none => "bad-request"
+  | ["c02.tableat", hex, pos] =>
+    match bytesOfHex hex, natOf pos with
+    | some bs, some p =>
+      let buf := bs.toArray
+      match XrefTable.parseXrefTableAndTrailer tableEnv buf (XrefTable.defaultFuel buf) (PdfLex.defaultFuel buf) p with
+      | .ok ((subs, d), q) => s!"ok {showSection subs} {DrvObj.showVal (.dict d)} {q}"
+      | o => o.tag
+    | _, _ => "bad-request"
+  | ["c02.tablewrite", sec, trailer, tape, tail] =>
+    match parseSection sec, DrvObj.valOf trailer, DrvObj.tapeOf tape, bytesOfHex tail with
+    | some subs, some (.dict d), some tp, some tl =>
+      hexOfBytes (XrefTableSpec.writeSection (fun (r : List UInt8) => r) subs d tl tp).1
+    | _, _, _, _ => "bad-request"
+  | ["c02.walk", hex, start] =>
+    match bytesOfHex hex, natOf start with
+    | some bs, some st =>
+      match XrefTable.readXrefTableAndTrailer tableEnv (fun _ _ => .err) noObjects (bs.length + 2) bs st with
+      | .ok (t, d) => s!"ok {joinWith "," (t.map showEntry)} {DrvObj.showVal (.dict d)}"
+      | o => o.tag
+    | _, _ => "bad-request"
   | ["c02.merge", size, secs] =>
     match natOf size, readSections secs with
     | some n, some ss =>
